@@ -45,7 +45,7 @@ def payloads(rng, tier):
         if not gen.live_vertices(rows):
             continue
         same = rng.choice([None, 0, 1, 2, 3])
-        flags = [same if same is not None else rng.randrange(4) for _ in range(cap)]
+        flags = [same if same is not None else rng.randrange(4) for _ in range(cap if k < 4 else min(cap, 50))]
         yield "history", {"k": k, "rows": rows, "flags": flags}
 
 
@@ -103,7 +103,7 @@ def build(stream, p):
             acc, lm = acc2, lm2
         out.append([0])
         return out
-    impl = lambda: guard(run, lambda r: r[1:], seconds=120)
+    impl = lambda: guard(run, lambda r: r[1:], seconds=900)
 
     def oracle(ans, raw):
         if isinstance(raw, BaseException):
